@@ -56,6 +56,8 @@ INFO = dict(
              "GPA's max_iterations exit is proved for the model but cannot be driven through the public API "
              "(max_iterations is fixed at 100 inside the constructor); it is exercised only when a generated case "
              "fails to converge",
+             "that no re-fit writes a point set is a transcription fact of the heap model (no model operation has a "
+             "point-set write; theorem retarget_frame states it); on the real code it is decided by the byte-digest oracle",
              "Copyable.copy of ThinPlateSplines / PiecewiseAffine deep-copies source and target point sets; the heap "
              "model keeps them shared (never written, so unobservable in the model); decided by the oracle"],
     assumptions=["numpy / LAPACK SVD, solve and lstsq are deterministic and accurate to 1e-10 on the conditioned inputs "
@@ -707,13 +709,17 @@ def gen_gpa(rng):
     k = rng.randint(3, 8)
     base = gen_cloud(rng, n, d)
     shapes = []
+    reflect = rng.random() < 0.3
+    amp = rng.choice([1 / 32.0, 1 / 8.0, 1 / 4.0, 1 / 2.0])
     for _ in range(k):
         c, s_ = common.rat_circle(rng, 6)
         M = np.eye(d)
         M[:2, :2] = [[float(c), -float(s_)], [float(s_), float(c)]]
         M = np.round(M * rng.choice([0.5, 1.0, 1.5, 2.0]) * 64) / 64
+        if reflect and rng.random() < 0.3:
+            M[:, 0] = -M[:, 0]
         P = base.dot(M.T) + np.array([dy(rng, -6, 6) for _ in range(d)])
-        P = P + np.array([[rng.randint(-4, 4) / 8.0 for _ in range(d)] for _ in range(n)])
+        P = P + np.array([[rng.randint(-4, 4) * amp for _ in range(d)] for _ in range(n)])
         shapes.append((np.round(P * 1024) / 1024).tolist())
     return {"kind": "gpa", "d": d, "shapes": shapes, "allow_mirror": rng.random() < 0.4,
             "fixed_target": rng.random() < 0.2}
